@@ -56,11 +56,11 @@ def run(ctx):
                            "rt_parse": "ok", "rt_norm": True, "rt_idem": "ok", "rt_verify": "ok"})
             events.append({"ev": "Backend"})
             if r["main"] is not None:
-                o = observe_main(r["main"])
+                o = observe_main(r["main"], raw_log_values=False)
                 events.append({"ev": "Exec", "pkg": p["rel"], "test": "main", "logs": o["logs"], "out": o["out"], "code": o["ret"]})
                 compared += 1
             for t in sorted(r["tests"], key=lambda t: t["test"]):
-                o = observe(t)
+                o = observe(t, raw_log_values=False)
                 events.append({"ev": "Exec", "pkg": p["rel"], "test": t["test"], "logs": o["logs"], "out": o["out"], "code": []})
                 compared += 1
     pv, prej = pipecheck.validate_pipeline(ctx, events, check_rt=False, name="corpus")
@@ -76,7 +76,7 @@ def run(ctx):
         "pipeline_events_validated": pv,
         "samples": [{"corpus_program": p["rel"]} for p in cps[:3]] + [{"skipped": s} for s in skipped[:3]],
     }, assumptions=[
-        "compared: logged values, return data, revert/non-revert status; not compared: revert codes of corpus programs, gas, sizes",
+        "compared: logged values (LogData), return data, revert/non-revert status; not compared: revert codes of corpus programs, raw register `log` receipts of corpus programs (hand-written asm logs addresses), gas, sizes",
         "corpus programs needing script data, a node or experimental flags are skipped, as are programs that do not build in both profiles with the full std (the e2e harness uses reduced std libraries)",
     ])
 
